@@ -111,9 +111,9 @@ func (m *Machine) binop(op token.Token, xt types.Type, x, y Value, yt types.Type
 	case token.AND:
 		return c.BvAnd(a, b)
 	case token.OR:
-		return c.BvOr(a, b)
+		return m.canon(c.BvOr(a, b))
 	case token.XOR:
-		return c.BvXor(a, b)
+		return m.canon(c.BvXor(a, b))
 	case token.AND_NOT:
 		return c.BvAnd(a, c.BvNot(b))
 	case token.SHL, token.SHR:
